@@ -373,7 +373,8 @@ def match_template(
 
         return ()
 
-    if node == template:
+    # 1 == 1.0 == True in python, but they are different literals.
+    if type(node) is type(template) and node == template:
         return (node,)
 
     return ()
